@@ -25,6 +25,18 @@ CHECKS = {
              note=T_BASE + '; SHA-256 uninterpreted',
              technique='contracts on the real functions, symbolic execution over all paths with abstract children, exhaustive finite case split, z3',
              design_ref='DESIGN.md §5 C02'),
+ 'C04': dict(category='other',
+             text='Deductive: Cell.serialize = d1 d2 pad(bits) ++ k-byte reference indexes (all r, k, symbolic data/indexes); the whole '
+                  'of to_boc on every DAG shape with <= 3 cells and two 4-cell sharing shapes (contents and data lengths symbolic) under '
+                  'all 6 option sets equals the specification encoding (vf/spec/boc.py): header, flag byte, root 0, index = cumulative end '
+                  'offsets (x2 with cache bits), sufficient off_bytes, topological order with every cell once, CRC-32C over everything '
+                  'before it (crc32c by its C18 contract); header widths for ARBITRARY cell counts 2..2^32-1 and arbitrary reference '
+                  'indexes via a mechanical split of to_boc after the statement fixing the cell count and a havoced state.  BOUNDED: the '
+                  'ordering algorithm (topological, duplicate-free for every DAG) — exhaustive over all DAG shapes with <= 5 cells, '
+                  'random DAGs, size boundaries (255/256/257 cells) against the strict specification decoder.',
+             note=T_BASE + '; crc32c by contract; the DAG-ordering induction is bounded, never counted as proved',
+             technique='contracts on the real functions, symbolic execution (bounded cell count, symbolic contents), loop/statement cut with havoc for the unbounded width obligations, z3; exhaustive native enumeration (bounded) for Cell.order',
+             design_ref='DESIGN.md §5 C04'),
  'C08': dict(category='proof',
              text='Heap invariant I (no container of a Cell is reachable from any Slice/Builder/other Cell; distinct derived objects '
                   'share no container) is proved to be re-established by EVERY derivation route (begin_parse, to_slice, from_cell, '
